@@ -299,11 +299,15 @@ def worker_main(prop_id, tier, seed, shard, nshards, out_path):
                 v, case = ddmin_ops(mod, prop_id, tier, case, v)
             except BaseException:  # noqa - minimisation is best effort
                 pass
-            res["violation"] = {"kind": v.kind, "detail": v.detail, "sig": v.sig, "case": case}
+            import locale as _loc
+            res["violation"] = {"kind": v.kind, "detail": v.detail, "sig": v.sig, "case": case,
+                                "locale_encoding": _loc.getpreferredencoding(False)}
     except BaseException as e:  # noqa
         res["error"] = "".join(traceback.format_exception(type(e), e, e.__traceback__))[-4000:]
     res.update(ctx.result())
     res["wall"] = time.time() - t0
+    import locale
+    res["locale_encoding"] = locale.getpreferredencoding(False)
     with open(out_path + ".tmp", "w") as f:
         json.dump(res, f, default=str)
     os.replace(out_path + ".tmp", out_path)
@@ -332,7 +336,7 @@ def replay_case(prop_id, case, tier="quick", exclude=None):
 def write_replay(prop_id, vio):
     os.makedirs(REPLAY_DIR, exist_ok=True)
     body = {"property": prop_id, "kind": vio["kind"], "detail": vio["detail"], "sig": vio["sig"],
-            "case": vio["case"],
+            "case": vio["case"], "locale_encoding": vio.get("locale_encoding", "UTF-8"),
             "how": f"/venv/bin/python /verif/check.py {prop_id} --replay <this file>"}
     name = f"{prop_id}-{jkey(vio['case'])}.json"
     path = os.path.join(REPLAY_DIR, name)
@@ -417,13 +421,17 @@ def orchestrate(prop_id, tier, seed, nshards=None, budget=None):
     signal.signal(signal.SIGTERM, _on_signal)
     signal.signal(signal.SIGINT, _on_signal)
     env = dict(os.environ, PYTHONHASHSEED="0", HSVERIF_SCRATCH=base)
+    # every second shard runs under a NON-UTF-8 locale (preferred encoding ASCII): text files the store opens without an
+    # explicit encoding, or strings it encodes with the locale's codec, then differ from the published layout as soon as an
+    # identifier is not ASCII.  stdio stays UTF-8 so that reports can be printed.
+    env_ascii = dict(env, LC_ALL="C", LANG="C", PYTHONCOERCECLOCALE="0", PYTHONUTF8="0", PYTHONIOENCODING="utf-8")
     for sh in range(nshards):
         out = os.path.join(base, f"res{sh}.json")
         cmd = [sys.executable, os.path.join(common.VERIF_DIR, "check.py"), prop_id, "--tier", tier,
                "--seed", str(seed), "--worker", str(sh), str(nshards), out]
         # own session per worker: the whole process group (forked children, manager servers of the
         # code under test) can be killed with it
-        procs.append((sh, out, subprocess.Popen(cmd, env=env, cwd=common.VERIF_DIR, start_new_session=True)))
+        procs.append((sh, out, subprocess.Popen(cmd, env=env_ascii if sh % 2 else env, cwd=common.VERIF_DIR, start_new_session=True)))
     results, violation, errors = {}, None, []
     pending = dict((sh, (out, p)) for sh, out, p in procs)
     max_wall = float(os.environ.get("HSVERIF_MAX_WALL") or (1800 if tier == "quick" else 6 * 3600))
@@ -462,6 +470,11 @@ def orchestrate(prop_id, tier, seed, nshards=None, budget=None):
         _kill_group(p)
     merged = {"evaluations": 0, "keys": set(), "classes": {}, "samples": [], "excluded": {},
               "shards": nshards}
+    encs = {}
+    for r in results.values():
+        e = r.get("locale_encoding", "?")
+        encs[e] = encs.get(e, 0) + 1
+    merged["classes"].update({f"shards-with-locale-encoding={k}": v for k, v in encs.items()})
     for sh in sorted(results):
         r = results[sh]
         merged["evaluations"] += r.get("evaluations", 0)
@@ -582,6 +595,14 @@ def main(argv=None):
         if a.replay:
             with open(a.replay) as f:
                 body = json.load(f)
+            import locale
+            want = str(body.get("locale_encoding", "UTF-8"))
+            if not want.upper().startswith("UTF") and locale.getpreferredencoding(False).upper().startswith("UTF") \
+                    and not os.environ.get("HSVERIF_REPLAY_LOCALE_SET"):
+                # the failure was found by a shard running under a non-UTF-8 locale: replay under the same
+                os.environ.update(LC_ALL="C", LANG="C", PYTHONCOERCECLOCALE="0", PYTHONUTF8="0", PYTHONIOENCODING="utf-8",
+                                  HSVERIF_REPLAY_LOCALE_SET="1")
+                os.execv(sys.executable, [sys.executable] + sys.argv)
             v = replay_case(a.prop, body["case"], a.tier)
             if v is not None:
                 print(f"VIOLATION property={a.prop} replay={a.replay}")
